@@ -76,6 +76,18 @@ def tie_generators(ctx, tie_ok):
     except OSError:
         return {"gsort", "genum", "gerror"}
     out = set()
+    try:
+        gtxt = open(os.path.join(ctx.gen, "MapRangeGen.v")).read()
+        etxt = vlib.strip_comments(open(os.path.join(vlib.COQ, "ties", "Tie_C14.v")).read())
+        srow = re.compile(r'\("([^"]*)"(?:%string)?, "([^"]*)"(?:%string)?, "([^"]*)"(?:%string)?, "([^"]*)"(?:%string)?\)\s*[;\n]')
+        gs = set(srow.findall(gtxt[gtxt.index("gen_pkg_state"):]))
+        es = set(srow.findall(etxt[etxt.index("expected_state"):]))
+        for row in gs ^ es:
+            out |= {"gsort/gen": {"gsort"}, "genum/gen": {"genum"}, "gerror/gen": {"gerror"}}.get(row[0], {"gsort", "genum", "gerror"})
+        if gs ^ es:
+            ctx.cov["package_state_changed"] = sorted(" / ".join(r) for r in gs ^ es)
+    except (OSError, ValueError):
+        pass
     for row in gen ^ exp:
         pkg = row[0]
         out |= {"gsort/gen": {"gsort"}, "genum/gen": {"genum"}, "gerror/gen": {"gerror"}}.get(pkg, {"gsort", "genum", "gerror"})
